@@ -157,25 +157,25 @@ type world struct {
 	sent   atomic.Int64 // sourcerunner.sent notifications
 	closed atomic.Bool
 
-	mu       sync.Mutex
-	auto     bool // free-running: reader, handler, operators and timers do not wait for the stepper
-	cursor   []int
-	next     *readCmd
-	lgid     int64
-	order    []Item // records in read order
-	ckpts    []ckpt
-	streams  [][]Item
-	nbatches []int // recorded HandleEventBatch calls per operator (non-empty)
-	empties  int
-	eoiSent  bool
-	kdo      func()
-	opFifo   []func()
-	optimer  []func()
-	calls    int64
-	inflight []int // concurrent HandleEventBatch calls per operator
-	maxConc  int
+	mu        sync.Mutex
+	auto      bool // free-running: reader, handler, operators and timers do not wait for the stepper
+	cursor    []int
+	next      *readCmd
+	lgid      int64
+	order     []Item // records in read order
+	ckpts     []ckpt
+	streams   [][]Item
+	nbatches  []int // recorded HandleEventBatch calls per operator (non-empty)
+	empties   int
+	eoiSent   bool
+	kdo       func()
+	opFifo    []func()
+	optimer   []func()
+	calls     int64
+	inflight  []int // concurrent HandleEventBatch calls per operator
+	maxConc   int
 	overtakes int
-	exit     chan error
+	exit      chan error
 }
 
 type readCmd struct {
